@@ -656,6 +656,7 @@ func rootAlloc(v ssa.Value) *ssa.Alloc {
 
 func (g *Gen) expandMod(pat string) []string {
 	// component name, possibly with trailing * wildcard; ghost names as is
+	pat = strings.TrimSpace(strings.TrimPrefix(pat, "new "))
 	var out []string
 	if strings.HasSuffix(pat, "*") {
 		pre := strings.TrimSuffix(pat, "*")
